@@ -41,8 +41,9 @@ check('C01', 'translation_validation',
       'a distinct variable), the `variables` properties of the AST classes, compile_body (conjunction = nested loops = left-to-right depth-first '
       'enumeration, as in C05/C06), the clause-level compiler functions (exactly the once-occurring plain head variables are aliased to argN, the '
       'others unified left to right around the body, one fresh declaration per further variable, terms become constructor calls), the constructor '
-      'API and the engine functions a compiled clause calls (unify family, query, match_dynamic, Answer.match). NOT composed into one end-to-end '
-      'theorem and not covering the emitted text: the level stays translation_validation - generated whole programs x queries on the real '
+      'API, the engine functions a compiled clause calls (unify family, query, match_dynamic, Answer.match) and the code generator (text of '
+      'every YPCode tree = its rendering). NOT composed into one end-to-end theorem, and what CPython makes of the rendered text is bounded '
+      '(A-CPY-TEXT): the level stays translation_validation - generated whole programs x queries on the real '
       'compiler+engine against an independent reference SLD interpreter (answers, order, multiplicity, aliasing).',
       _CTL_NOTE + ' STO cases (a head unification that builds a cyclic term) are excluded as unspecified.',
       'contract-based deductive verification of the visitor, the clause compiler and the engine functions a clause calls; bounded differential translation validation for the whole pipeline', 'DESIGN 5/C01')
@@ -100,7 +101,9 @@ check('C11', 'proof',
       'generated names; renaming injective; head names match the identifier pattern; numerals emitted as str(int(text))), provenance and template '
       'obligations on the generator AST; visitClause verified (the head of every accepted clause is an ordinary goal whose name matches the identifier '
       'pattern: the Python regular expression is translated to an SMT regular language); nesting_depth, compile_expression/compile_list bracket depth '
-      'and the CompilerError guard of compile_function_body verified. The shape of the whole output (parses, one generator def '
+      'and the CompilerError guard of compile_function_body verified; compile_program/compile_function (one function per dictionary key), '
+      'visitProgram (keys = clause heads) and the code generator (the emitted text is the rendering of spec/render.smt2: def name_<arity>(arg1..argN)) '
+      'verified. The shape of the whole output (parses, one generator def '
       'per clause-head key, loads) is decided by bounded stand-ins modulo A-PYGRAMMAR.',
       'Assumed: A-PYGRAMMAR, A-CPY-LIMITS, A-PY-STR (incl. str(n) is a decimal literal), A-EXT-ANTLR token rules. Trusted: AST checkers, SMT string solvers.',
       _VC + ' with the SMT string theory; AST provenance/template obligations; bounded boundary-program loading', 'DESIGN 5/C11')
